@@ -193,6 +193,8 @@ class AvroJSONDecoder:
             self._push()
             self._current = self._current.pop(0)
             yield
+            # Finish the item before going back to the array (see iter_map)
+            self._parser.run_pending_actions()
             self._pop()
             self._parser.advance(ItemEnd())
 
